@@ -911,6 +911,29 @@ pub fn spaces(tier: Tier) -> Vec<Space> {
             eval_script(&toks, &e, FEW_LEGS, acc, case);
         }));
     }
+    // 1a3. nesting sweep: d nested conditionals for every d in 1..=N, IF / NOTIF, with / without ELSE at every level
+    {
+        let e = env.clone();
+        let dmax: u64 = if tier.is_thorough() { 120 } else { 40 };
+        v.push(Space::new("nesting-sweep", dmax * 4, move |case, acc| {
+            let c = coords(case.idx, &[dmax, 4]);
+            let d = c[0] as usize + 1;
+            let (notif, with_else) = (c[1] & 1 == 1, c[1] & 2 == 2);
+            let mut toks: Vec<Tok> = vec![];
+            for lvl in 0..d {
+                toks.push(Tok::Op(if notif { 0x64 } else { rs::OP_IF }));
+                toks.push(Tok::Push(vec![lvl as u8, 0xaa]));
+            }
+            for lvl in (0..d).rev() {
+                if with_else {
+                    toks.push(Tok::Op(rs::OP_ELSE));
+                    toks.push(Tok::Op(0x52 + (lvl % 8) as u8));
+                }
+                toks.push(Tok::Op(rs::OP_ENDIF));
+            }
+            eval_script(&toks, &e, FEW_LEGS, acc, case);
+        }));
+    }
     // 1b. every ordered pair over the sub-alphabet
     {
         let e = env.clone();
